@@ -159,3 +159,29 @@ fn fu_enter_on_poll_no_parent() {
     assert!(gc::nlog() == 0 && depth() == 0);
     kani::cover!(true);
 }
+
+// C13: also when the polling thread ALREADY has the same span as local parent (block_on under
+// span.set_local_parent()), every poll opens its own scope and hands its local spans over when
+// that poll ends (otherwise the final poll's records are handed over after a root's commit).
+#[kani::proof]
+#[kani::unwind(3)]
+fn fu_inspan_scope_inside_own_scope() {
+    env();
+    let item = sp::any_item(true);
+    let id: u64 = kani::any();
+    let span = sp::mk_span(id, 5, vec![item], None);
+    // the enclosing scope, as span.set_local_parent() would have opened it (token = issued token)
+    let outer = crate::collector::CollectTokenItem { parent_id: SpanId(id), is_root: false, ..item };
+    let h = unsafe { STACK.as_ref().unwrap().borrow_mut().register_span_line(Some(vec![outer])) };
+    assert!(depth() == 1);
+    let mut f = Probe { ready_at: 9, record_local_span: false }.in_span(span);
+    let mut cx = Context::from_waker(Waker::noop());
+    let fp = unsafe { Pin::new_unchecked(&mut f) };
+    let r = fp.poll(&mut cx);
+    assert!(r == Poll::Pending);
+    assert!(unsafe { SEEN_DEPTH } == 2 && unsafe { SEEN_PARENT } == Some(SpanId(id)), "the poll did not get its own local-parent scope");
+    assert!(depth() == 1, "the previous local context was not restored after the poll");
+    assert!(gc::nlog() == 1 && gc::log(0).kind == 3 && gc::log(0).set_kind == 1, "the poll's local spans were not handed over when the poll ended");
+    std::mem::forget((f, h));
+    kani::cover!(true);
+}
